@@ -120,6 +120,49 @@ STATE_FAULTS = {
 }
 
 
+def _image_collision(o):
+    from productmd.images import Image
+    v = sorted(o.images)[0]
+    a = sorted(o.images[v])[0]
+    i0 = sorted(o.images[v][a], key=lambda i: i.path)[0]
+    i = Image(o)
+    for k in ("mtime", "size", "volume_id", "type", "format", "arch", "disc_count", "implant_md5", "bootable", "subvariant", "unified", "additional_variants"):
+        setattr(i, k, getattr(i0, k))
+    i.path, i.checksums, i.disc_number = i0.path + ".copy", {"sha256": "0" * 64}, 99
+    o.add(v, a, i)
+    i.disc_number = i0.disc_number          # edited AFTER add(): now equal on all UNIQUE_IMAGE_ATTRIBUTES, different checksums (F11-style)
+
+
+def _src_arch_key(o):
+    v = sorted(o.images)[0]
+    o.images[v]["src"] = o.images[v].pop(sorted(o.images[v])[0])     # an arch key add() would refuse
+
+
+def _toplevel_addon(o):
+    from productmd.treeinfo import Variant
+    v = Variant(o)
+    v.id = v.uid = "HA2"
+    v.name, v.type = "n", "addon"
+    o.variants.add(v)                                                 # F24: written as [addon-HA2], looked up as [variant-HA2]
+
+
+def _platform_suffix(o):
+    p = "kvm-" + o.tree.arch                                          # F25: read back as platform "kvm"
+    o.tree.platforms.add(p)
+    o.images.images[p] = {"kernel": "k"}
+
+
+# WRITTEN-BUT-UNREADABLE: real states every write-side validator accepts (the unchanged dump SUCCEEDS) but the reader refuses
+UNREADABLE = {
+    "discinfo-description-with-newline": ("discinfo", lambda o: setattr(o, "description", "Fedora\n20")),
+    "images-identity-collision-after-add": ("images", _image_collision),
+    "images-src-arch-key": ("images", _src_arch_key),
+    "treeinfo-checksum-value-with-colon": ("treeinfo", lambda o: o.checksums.add("images/x.img", "sha256", "ab:cd")),
+    "treeinfo-toplevel-addon": ("treeinfo", _toplevel_addon),
+    "treeinfo-platform-with-arch-suffix": ("treeinfo", _platform_suffix),
+}
+
+
 class Observer(object):
     """wraps (from outside) the statements of dump on one object: validate / _get_parser / serialize / build_file (into the
     opened destination = buildFile, into anything else = buildMem), the creation of a memory buffer by dump (newBuf), the two
@@ -201,6 +244,13 @@ class Observer(object):
                 me.trace.append("newBuf")
             return me.orig_sio(*a, **k)
         C.open_file_obj, builtins.open, six.StringIO = ofo, opn, sio
+        self.orig_load = C.MetadataBase.load
+
+        def load(self_, f):
+            if f == me.dest:
+                me.trace.append("readBack")
+            return me.orig_load(self_, f)
+        C.MetadataBase.load = load
         self.orig_os = dict((n, getattr(os, n)) for n in ("unlink", "remove", "rename", "replace"))
 
         def destr(name):
@@ -219,6 +269,7 @@ class Observer(object):
         self.C.open_file_obj, builtins.open, self.six.StringIO = self.orig_ofo, self.orig_open, self.orig_sio
         for n, f in self.orig_os.items():
             setattr(os, n, f)
+        self.C.MetadataBase.load = self.orig_load
         for n, v in self.saved.items():
             if v is None:
                 self.obj.__dict__.pop(n, None)
@@ -288,7 +339,8 @@ class C18(Prop):
             "to a file, read-only file, (non-root) read-only directory - same bytes AND same inode/link count/kind/mode required} x every _validate* of every "
             "object validated during a dump (injected ValueError/TypeError) + a really invalid value for every validated field + an "
             "unencodable payload value + 13 real invalid states failing in a section writer (IndexError/KeyError/TypeError/"
-            "AttributeError/ValueError without a validator refusing); oracle: bytes/existence of the destination before vs after a dump that raised; "
+            "AttributeError/ValueError without a validator refusing) + 6 written-but-unreadable states (every writer accepts, the reader "
+            "refuses: F11/F24/F25-style) dumped over a good file; oracle: bytes/existence of the destination before vs after a dump that raised; "
             "correspondence: observed effect order, failing statement and final content vs Lean `run` on the generated script; "
             "non-trivial = the dump raised")
     assumptions = ["an unrecognised statement in dump (`unknown`) may fail but does not itself touch the file system (the real file is "
@@ -368,6 +420,10 @@ class C18(Prop):
                 if fmt in PAYLOAD_FAULTS:
                     for prior in ["valid", "none"] + EXTRA_PRIORS:
                         yield {"op": "dump_fault", "args": {"fmt": fmt, "seed": seed, "prior": prior, "fault": {"kind": "payload"}}}
+                for name in sorted(UNREADABLE):
+                    if UNREADABLE[name][0] == fmt:
+                        for prior in ["valid", "none"] + EXTRA_PRIORS[:1]:
+                            yield {"op": "dump_fault", "args": {"fmt": fmt, "seed": seed, "prior": prior, "fault": {"kind": "unreadable", "name": name}}}
                 for name in sorted(STATE_FAULTS):
                     if STATE_FAULTS[name][0] == fmt:
                         for prior in ["valid", "none"] + EXTRA_PRIORS:
@@ -421,6 +477,8 @@ class C18(Prop):
             elif fault["kind"] == "state":
                 kw = STATE_FAULTS[fault["name"]][1](obj)
                 kw = kw if isinstance(kw, dict) else {}
+            elif fault["kind"] == "unreadable":
+                UNREADABLE[fault["name"]][1](obj)
             # ---- outcomes of the object's own steps, observed independently of dump (input of the model)
             outcomes = {}
             try:
@@ -437,6 +495,11 @@ class C18(Prop):
                 try:
                     obj.build_file(p, sio)
                     outcomes["serialize"] = {"ok": sio.getvalue()}
+                    try:                                      # would a fresh instance read this text back?
+                        type(obj)().load(io.StringIO(sio.getvalue()))
+                        outcomes["readBack"] = None
+                    except Exception as e:
+                        outcomes["readBack"] = checklib.err_class(e)
                 except Exception as e:
                     # the encoder gave up: the model needs the full intended text only up to the failure point
                     outcomes["serialize"] = {"ok": sio.getvalue()}
@@ -536,6 +599,9 @@ class C18(Prop):
         res = real_out["result"]
         key = "dump ok" if res == "ok" else "raised in %s" % res["eff"]
         dist[key] = dist.get(key, 0) + 1
+        if a["fault"]["kind"] == "unreadable":
+            k2 = "written-but-unreadable confirmed (reader refuses the written text)" if real_out["outcomes"].get("readBack") else "UNREADABLE recipe is readable (stale recipe)"
+            dist[k2] = dist.get(k2, 0) + 1
         if a["fault"]["kind"] == "value" and res == "ok":
             dist["invalid value not refused (guarded / unchecked)"] = dist.get("invalid value not refused (guarded / unchecked)", 0) + 1
 
